@@ -14,6 +14,11 @@ CONSTANTS
   MaxReverts = 3
   MemoFamilies = {}
   MemoPurged = TRUE
+  FieldTable <- MCFieldTable
+  VaryShapes = FALSE
+  MaxClasses = 0
+  CodecSlip = "none"
+  SlipCodecs = {}
 INIT MBTInit
 NEXT MBTNext
 CHECK_DEADLOCK FALSE
